@@ -8,6 +8,7 @@
 // heap-use-after-free, which ends the process (the check attributes the CRASH to the case).
 //
 // Line syntax and output: see lean/Driver/C13.lean.
+#include <algorithm>
 #include <condition_variable>
 #include <functional>
 #include <set>
@@ -595,6 +596,12 @@ static bool parse_op(const std::vector<std::string> &t, Op &op)
   }
   if ((op.kind == "scribble" || op.kind == "free") && t.size() == 2) return parse_small(t[1], 100000, op.buf);
   if (op.kind == "flush" && t.size() == 1) return true;
+  // a processor attached to the provider later: records created from then on reach it, records already in hand do not
+  if (op.kind == "addproc" && t.size() == 2 && (t[1] == "s" || t[1] == "b"))
+  {
+    op.target = t[1];
+    return true;
+  }
   return false;
 }
 
@@ -671,7 +678,9 @@ static std::string handle(const std::vector<std::string> &toks)
   }
   std::map<long, std::unique_ptr<Cell>> cells;
   std::map<long, Rec> records;
-  const bool has_batch = procs.find('b') != std::string::npos;
+  std::string late_kinds;
+  const bool has_batch = procs.find('b') != std::string::npos ||
+                         std::any_of(ops.begin(), ops.end(), [](const Op &o) { return o.kind == "addproc" && o.target == "b"; });
   auto flush = [&]() {
     if (!has_batch) return;
     vh::wait_parked();  // so that the wake-up is not lost
@@ -783,6 +792,22 @@ static std::string handle(const std::vector<std::string> &toks)
     }
     else if (op.kind == "free") cells.erase(op.buf);  // destroys the caller's storage
     else if (op.kind == "flush") flush();
+    else if (op.kind == "addproc")
+    {
+      auto log = std::make_shared<Log>();
+      std::unique_ptr<logs_sdk::LogRecordExporter> exp(new LogExporter(log));
+      std::unique_ptr<logs_sdk::LogRecordProcessor> inner;
+      if (op.target == "s") inner.reset(new logs_sdk::SimpleLogRecordProcessor(std::move(exp)));
+      else
+      {
+        logs_sdk::BatchLogRecordProcessorOptions o;
+        o.schedule_delay_millis = std::chrono::milliseconds(2000);
+        inner.reset(new logs_sdk::BatchLogRecordProcessor(std::move(exp), o));
+      }
+      provider->AddProcessor(std::unique_ptr<logs_sdk::LogRecordProcessor>(new Counting(std::move(inner), log, op.target == "b")));
+      logs.push_back(log);
+      late_kinds.push_back(op.target[0]);
+    }
     else workers[op.t]->run(run);
   }
   flush();
@@ -790,7 +815,7 @@ static std::string handle(const std::vector<std::string> &toks)
   for (size_t i = 0; i < logs.size(); i++)
   {
     if (i) out += " | ";
-    out += "p" + std::to_string(i) + ":" + procs[i] + ":n=" + std::to_string(logs[i]->on_emit) + ":x=[";
+    out += "p" + std::to_string(i) + ":" + (i < procs.size() ? procs[i] : late_kinds[i - procs.size()]) + ":n=" + std::to_string(logs[i]->on_emit) + ":x=[";
     for (size_t b = 0; b < logs[i]->batches.size(); b++)
     {
       if (b) out += ";";
